@@ -153,12 +153,20 @@ func (d v4Dev) String() string {
 	return v4SuppNames[d.m] + ":" + d.val
 }
 
-func v4CheckRepr(c spec.V4Class, rp *V4Repr) (key, expected, observed string, o gocvss40.CVSS40) {
+// v4CheckRepr compares the score of one representation of class c with the exact model, or (table != nil:
+// differential mode of C10) with the implementation's own score of the canonical representative.
+func v4CheckRepr(c spec.V4Class, rp *V4Repr, table V4Table) (key, expected, observed string, o gocvss40.CVSS40) {
 	o, err := rp.Object()
 	if err != nil {
 		return "v4.0/score/cannot-build", "legal Set calls succeed", err.Error(), o
 	}
 	want, _, _ := spec.V4Score(c)
+	if table != nil {
+		want = int(table[c.Index()])
+		if table[c.Index()] == v4Bad {
+			return "", "", "", o // the canonical representative itself misbehaves: C04/C11's business
+		}
+	}
 	s, p := v4ImplScore(&o)
 	if p != nil {
 		return "v4.0/Score/panic", fmt.Sprintf("%.1f", float64(want)/10), fmt.Sprintf("panic: %v on %s", p, o.Vector()), o
@@ -174,7 +182,7 @@ func v4CheckRepr(c spec.V4Class, rp *V4Repr) (key, expected, observed string, o 
 }
 
 // sweepV4Lift: every class selected by keep x every combination of up to `bound` deviations on distinct metrics.
-func sweepV4Lift(r *Report, bound int, keep func(c spec.V4Class) bool, extra func(o *gocvss40.CVSS40, s float64)) {
+func sweepV4Lift(r *Report, bound int, keep func(c spec.V4Class) bool, table V4Table) {
 	devs := v4Devs()
 	n := spec.V4NumClasses
 	chunk := 1 << 12
@@ -202,12 +210,14 @@ func sweepV4Lift(r *Report, bound int, keep func(c spec.V4Class) bool, extra fun
 					}
 				}
 				cnt++
-				key, exp, obs, o := v4CheckRepr(c, &rp)
+				key, exp, obs, o := v4CheckRepr(c, &rp, table)
 				if key != "" {
 					cc, rr := c, rp
+					cv := CanonRepr(c)
+					co, _ := cv.Object()
 					r.Violation(Case{Kind: "v4-repr", Key: key, Expected: exp, Observed: obs,
-						Args: map[string]any{"index": idx, "class": c.String(), "vector": o.Vector()}},
-						func() bool { k2, _, _, _ := v4CheckRepr(cc, &rr); return k2 != "" })
+						Args: map[string]any{"index": idx, "class": c.String(), "vector": o.Vector(), "canonical": co.Vector(), "differential": table != nil}},
+						func() bool { k2, _, _, _ := v4CheckRepr(cc, &rr, table); return k2 != "" })
 				}
 			}
 			for i, d1 := range devs {
@@ -240,6 +250,16 @@ func init() {
 		}
 		cls := spec.V4ClassFromIndex(int(c.Args["index"].(float64)))
 		want, _, _ := spec.V4Score(cls)
+		if d, _ := c.Args["differential"].(bool); d {
+			// differential mode: the expectation is the implementation's own score of the canonical representative
+			if co, cerr := gocvss40.ParseVector(argStr(c, "canonical")); cerr == nil {
+				if cs, cp := v4ImplScore(co); cp == nil {
+					if k, ok := score10(cs); ok {
+						want = k
+					}
+				}
+			}
+		}
 		s, p := v4ImplScore(o)
 		if p != nil {
 			return fmt.Sprintf("panic %v", p)
